@@ -1133,6 +1133,18 @@ fn gen_setup_l(rng: &mut Rng, layout: u8) -> (CaseSetup, World) {
         let e = sys[rng.below(sys.len() as u64) as usize].clone();
         usr.push(Entry { freq: rng.below(6000) as u32, time: rng.below(50), ..e });
     }
+    // one case in twelve: the frequencies are ANY u32 (a dictionary file may hold every value) - within a dozen of
+    // u32::MAX, around 2^31, 3 * 10^9: the engine's sum and the estimate's addition saturate (fixes 2d722b2, c3802fc)
+    if rng.chance(1, 12) {
+        for e in sys.iter_mut().chain(usr.iter_mut()) {
+            e.freq = match rng.below(4) {
+                0 => u32::MAX - rng.below(12) as u32,
+                1 => (1u32 << 31) - 3 + rng.below(6) as u32,
+                2 => 3_000_000_000 + rng.below(1000) as u32,
+                _ => e.freq,
+            };
+        }
+    }
     let abbr = if rng.chance(1, 3) { vec![('B', "百度".to_string()), ('z', "zh".to_string())] } else { vec![] };
     let symsel = if rng.chance(2, 3) {
         vec![
